@@ -7,6 +7,7 @@ import (
 	"os"
 	"os/exec"
 	"time"
+	"verifharness/internal/serve"
 
 	"verifharness/internal/report"
 )
@@ -74,13 +75,19 @@ func init() {
 		return nil
 	}
 	checks["C13"] = func(run *report.Run) error {
-		run.Rule = "proof obligations about the regenerated facts (acquire = one non-blocking receive, release = one non-blocking send, no len/plain send/receive; Close forgets the compressor; deferred releases) plus the protocol theorems for all capacities, thread counts and interleavings; the search for a failing schedule: the provider API hammered by 8 goroutines at capacity 0, 1, 2, then 8 goroutines × 60 encoded responses / gzip request bodies (some truncated, some panicking) per provider behind a ledger (object handed out twice, double release, never released), every body decoded and compared with its own payload, watchdog for blocked goroutines; -race build"
+		run.Rule = "sequential histories from the serve generator behind a ledger provider with Spec.c13Holds evaluated on every real request (acquired = released, no anomaly; encoding at container or route level, panics, all entry points); proof obligations about the regenerated facts (acquire = one non-blocking receive, release = one non-blocking send, no len/plain send/receive; Close forgets the compressor; deferred releases) plus the protocol theorems for all capacities, thread counts and interleavings; the search for a failing schedule: the provider API hammered by 8 goroutines at capacity 0, 1, 2, then 8 goroutines × 60 encoded responses / gzip request bodies (some truncated, some panicking) per provider behind a ledger (object handed out twice, double release, never released), every body decoded and compared with its own payload, watchdog for blocked goroutines; -race build"
 		run.Trusted = []string{"tools/gofacts", "channels and sync.Pool by their contract (atomic, non-blocking, may drop)"}
 		d := 3 * time.Second
 		if run.Tier == "thorough" {
 			d = 90 * time.Second
 		}
 		runStress(run, "c13", d)
-		return nil
+		// the framework's half, sequentially and over every configuration the serve generator knows
+		// (encoding switched on at the container or only at a route, all six entry points, panics at
+		// every position with recovery on and off, four providers behind the ledger): per request,
+		// acquired = released and no ledger anomaly (Spec.c13Holds; theorem C13_served_released_once)
+		n := sizes(run, 500, 10000)
+		p := serve.PropSpec{ID: "C13", SpecKey: "C13", Proj: serve.ProjLedger}
+		return serve.Check(run, p, serve.GenOpts{Router: "curly", PanicPct: 12}, n, 5, "ledger")
 	}
 }
